@@ -28,7 +28,7 @@ use crate::command::terminate_driver_flyweight::TerminateDriverFlyweight;
 use crate::concurrent::atomic_buffer::AtomicBuffer;
 use crate::concurrent::ring_buffer::ManyToOneRingBuffer;
 use crate::log;
-use crate::utils::errors::{AeronError, IllegalStateError};
+use crate::utils::errors::{AeronError, IllegalArgumentError, IllegalStateError};
 use crate::utils::types::Index;
 
 pub struct DriverProxy {
@@ -57,6 +57,7 @@ impl DriverProxy {
 
         self.write_command_to_driver(|buffer, length| {
             let mut publication_message = PublicationMessageFlyweight::new(buffer, 0);
+            Self::check_command_length(&buffer, publication_message.length(), channel.as_bytes().len())?;
 
             publication_message.set_client_id(self.client_id);
             publication_message.set_correlation_id(correlation_id);
@@ -75,6 +76,7 @@ impl DriverProxy {
         let correlation_id = self.to_driver_command_buffer.next_correlation_id();
         self.write_command_to_driver(|buffer, length| {
             let mut publication_message = PublicationMessageFlyweight::new(buffer, 0);
+            Self::check_command_length(&buffer, publication_message.length(), channel.as_bytes().len())?;
 
             publication_message.set_client_id(self.client_id);
             publication_message.set_correlation_id(correlation_id);
@@ -112,6 +114,7 @@ impl DriverProxy {
 
         self.write_command_to_driver(|buffer, length| {
             let mut subscription_message = SubscriptionMessageFlyweight::new(buffer, 0);
+            Self::check_command_length(&buffer, subscription_message.length(), channel.as_bytes().len())?;
 
             subscription_message.set_client_id(self.client_id);
             subscription_message.set_registration_correlation_id(-1);
@@ -162,6 +165,7 @@ impl DriverProxy {
 
         self.write_command_to_driver(|buffer, length| {
             let mut add_message = DestinationMessageFlyweight::new(buffer, 0);
+            Self::check_command_length(&buffer, add_message.length(), channel.as_bytes().len())?;
 
             add_message.set_client_id(self.client_id);
             add_message.set_registration_id(publication_registration_id);
@@ -181,6 +185,7 @@ impl DriverProxy {
 
         self.write_command_to_driver(|buffer, length| {
             let mut remove_message = DestinationMessageFlyweight::new(buffer, 0);
+            Self::check_command_length(&buffer, remove_message.length(), channel.as_bytes().len())?;
 
             remove_message.set_client_id(self.client_id);
             remove_message.set_registration_id(publication_registration_id);
@@ -200,6 +205,7 @@ impl DriverProxy {
 
         self.write_command_to_driver(|buffer, length| {
             let mut add_message = DestinationMessageFlyweight::new(buffer, 0);
+            Self::check_command_length(&buffer, add_message.length(), channel.as_bytes().len())?;
 
             add_message.set_client_id(self.client_id);
             add_message.set_registration_id(subscription_registration_id);
@@ -219,6 +225,7 @@ impl DriverProxy {
 
         self.write_command_to_driver(|buffer, length| {
             let mut remove_message = DestinationMessageFlyweight::new(buffer, 0);
+            Self::check_command_length(&buffer, remove_message.length(), channel.as_bytes().len())?;
 
             remove_message.set_client_id(self.client_id);
             remove_message.set_registration_id(subscription_registration_id);
@@ -238,6 +245,9 @@ impl DriverProxy {
 
         self.write_command_to_driver(|buffer, length| {
             let mut command = CounterMessageFlyweight::new(buffer, 0);
+            // the label follows the key at the next 4 byte boundary
+            let aligned_key_length = (key.len() + 3) & !3;
+            Self::check_command_length(&buffer, command.length(), aligned_key_length + label.as_bytes().len())?;
 
             command.set_client_id(self.client_id);
             command.set_correlation_id(correlation_id);
@@ -293,6 +303,7 @@ impl DriverProxy {
     pub fn terminate_driver(&self, token_buffer: &[u8]) -> Result<(), AeronError> {
         self.write_command_to_driver(|buffer, length| {
             let mut request = TerminateDriverFlyweight::new(buffer, 0);
+            Self::check_command_length(&buffer, request.length(), token_buffer.len())?;
 
             request.set_client_id(self.client_id);
             request.set_correlation_id(-1);
@@ -302,6 +313,26 @@ impl DriverProxy {
 
             Ok(AeronCommand::TerminateDriver)
         })
+    }
+
+    /// Commands are encoded into a fixed size scratch buffer before they are copied to the ring buffer.
+    /// The flyweight setters only assert that they stay inside of it, therefore a command which can't
+    /// be encoded must be rejected before encoding starts. `empty_length` is the length of the
+    /// command while all of its variable length fields are still empty (scratch buffer is zeroed),
+    /// `variable_length` is the total length of the variable length data which is going to be set.
+    fn check_command_length(buffer: &AtomicBuffer, empty_length: Index, variable_length: usize) -> Result<(), AeronError> {
+        let max_message_length = buffer.capacity();
+
+        if variable_length > (max_message_length - empty_length) as usize {
+            let length = (empty_length as usize).saturating_add(variable_length);
+            return Err(IllegalArgumentError::EncodedMessageExceedsMaxMessageLength {
+                length: length.min(i32::MAX as usize) as i32,
+                max_message_length,
+            }
+            .into());
+        }
+
+        Ok(())
     }
 
     fn write_command_to_driver(
